@@ -21,6 +21,7 @@ EXPLANATION = (
     "columns sample - trough_offset + [0, length), row i with row i, and the neighbour table's pad index is the NaN row "
     "appended by add_nan_trace; (D6) spikes are admissible strictly inside the margins and each unit draws min(max_wf, n) "
     "without replacement. Equality with the source traces and chunk/worker independence of values are NOT decided."
+    " (D6 as built) the admissibility mask is normalised to sample OP bound by linear algebra; arithmetic on the caller's spike-sample array before a signed cast is refused (unsigned spike times wrap); per-unit candidates may be selected by mask or by one stable sort + searchsorted grouping."
 )
 ASSUMPTIONS = [
     "np.arange(a, b, k)[i] == a + i*k; rng.choice(replace=False) returns distinct elements; stable argsort of group codes is a permutation",
